@@ -142,7 +142,7 @@ def families(tier):
         fams.append(Mixed('LP', pose, planes, linelikes, chunk=4))
         fams.append(Mixed('PP', pose, planes, planes, both_orders=False, chunk=8))
         fams.append(Mixed('PX', pose, points, linelikes + planes + points, chunk=4))
-    return fams
+    return A.with_int_mode(fams, tier)
 
 
 def run(tier, seed):
